@@ -1930,6 +1930,13 @@ def run(chk):
                "the route map and layout tables are only read" if not muts else "; ".join(d for _, d in muts) +
                " - the stored route is shortened/changed by a transpose: the next transpose between the same layouts takes a wrong route",
                file=U.LAYOUT, func=q)
+        for n_, d_, why_ in getattr(muts, "undecided", ()):
+            chk.ob("G2-no-shared-mutation", n_, f"{q} vs the cached route map: {d_}", None,
+                   f"a possible change of the stored route that could not be established: {why_}", file=U.LAYOUT, func=q)
+    # results the swapper keeps in a table under a key built from the arguments: the key covers what they are computed from
+    from .C01 import memo_key_coverage
+    engine(chk, "G5-memo-key", mod.cls(CLS), "results kept in a table under a key built from the arguments", memo_key_coverage, chk, mod, CLS,
+           file=U.LAYOUT, func=CLS)
     # getAxes itself: returns (position in gathered ordering of the scattered dimension, scattered axis)
     getaxes_definition(chk, mod)
     # two different handlers with the same number of process directions: connected directly only if the shared communicators
@@ -1937,8 +1944,14 @@ def run(chk):
     engine(chk, "A1-equal-handlers-same-dimension", mod.cls(CLS), "the method deciding direct connection of two layouts",
            equal_handlers_same_dimension, chk, mod, file=U.LAYOUT, func=CLS)
     # the same matching in _compatibleLayout: communicators are matched as objects
-    for q in ("LayoutSwapper._compatibleLayout", "LayoutSwapper.getAxes"):
-        f_ = mod.func(q)
+    # (the deciding method is found by its role - see _connection_decider -, not by today's name; getAxes is the public interface)
+    decider, _sites = _connection_decider(mod)
+    if decider is None:
+        chk.ob("A1-communicator-identity", mod.cls(CLS), "the method deciding direct connection: handlers' communicators matched as objects", None,
+               "cannot decide: no `_compatibleLayout`, and no single method of the swapper that the constructor calls on two layout names in a "
+               "test and that reads the handlers' communicators", file=U.LAYOUT, func=CLS)
+    for q, f_ in ([(getattr(decider, "_qual", f"{CLS}.{decider.name}"), decider)] if decider is not None else []) + \
+            [("LayoutSwapper.getAxes", mod.func("LayoutSwapper.getAxes"))]:
         okc, d = comm_identity(f_)
         chk.pat("A1-communicator-identity", f_, f"{q}: handlers' communicators matched as objects", okc,
                 "a process axis of one handler is identified with an axis of the other only if both hold the very same communicator",
